@@ -118,7 +118,7 @@ func runC12(env *Env) {
 				rep.Violate("C12-inline", cs, fmt.Sprintf("final variables differ: wrapped %v, unwrapped %v", ow.vars, of.vars))
 			}
 			_, subs := BlkProgSubs(wrapped)
-			items = append(items, fmt.Sprintf("(%s,%s,%s,%s,%s,%s)", wrapped.Coq(), envCoq(env0), natList(ow.first), ow.CoqScript(), envCoq(ow.vars), SubEvents(subs, ow.log)))
+			items = append(items, ow.CoqCase(wrapped, env0, SubEvents(subs, ow.log)))
 			if len(rep.Samples) < 4 && len(of.steps) > 2 {
 				rep.Sample(fmt.Sprintf("%s -> first pending %v, steps %s, completed %v", cs, ow.first, ow.CoqScript(), ow.completed))
 			}
@@ -187,6 +187,6 @@ func runC12(env *Env) {
 		}
 		in.Close()
 	}
-	env.WriteCases(rep, "", "Corr.C12corr", "blk * list bool * list nat * list ostep * list bool * list (list nat)", items, "c12_mismatches")
+	env.WriteCases(rep, "", "Corr.C12corr", blkCaseType, items, "c12_mismatches")
 	env.WriteReport(rep)
 }
